@@ -247,7 +247,7 @@ func (e *Env) Apply(op Op) {
 	e.Step++
 	e.Trace = append(e.Trace, op)
 	e.St.Inc("op." + op.Kind)
-	if op.Kind != "publish" {
+	if op.Kind != "publish" && op.Kind != "backup" {
 		e.bkDir = "" // only publish-only gaps allow re-using a backup directory
 	}
 	switch op.Kind {
